@@ -136,7 +136,7 @@ func RunPipe(sc PipeScenario) (fs []Finding, trace string) {
 	reps, stray, mal := s.Replies()
 	reps = reps[npre:]
 	trace = fmt.Sprintf("cfg=%s prefix=%v pipe=%v\nstream=%q\n", sc.Cfg, opsStrings(sc.Prefix), opsStrings(ops), s.Cli.Out)
-	if pc := s.ParseCalls(); pc != len(s.Ops)+1 && !ended {
+	if pc := s.ParseCalls(); pc >= 0 && pc != len(s.Ops)+1 && !ended {
 		add("request-framing", fmt.Sprintf("server parsed %d requests from the %d sent", pc-1, len(s.Ops)), wire.Op{Kind: "pipeline"}, "-", "-")
 	}
 	if ended {
@@ -191,6 +191,9 @@ func runC08(c *rt.Ctx) {
 			cfgs = append(cfgs, Cfg{Orca: "l1l2", Lock: "none", Proto: p, L1H: h}, Cfg{Orca: "l1only", Lock: "none", Proto: p, L1H: h})
 		}
 	}
+	// deployments built by the real main program (replies are attributed over the whole stream there)
+	cfgs = append(cfgs, Cfg{Orca: "l1only", Lock: "none", Proto: "text", L1H: "std", App: true}, Cfg{Orca: "l1l2b", Lock: "multi", Proto: "binary", L1H: "std", App: true, Conc: 2},
+		Cfg{Orca: "l1l2b", Lock: "single", Proto: "text", L1H: "chunked", App: true, Conc: 2}, Cfg{Orca: "l1l2b", Lock: "none", Proto: "binary", L1H: "batched", App: true})
 	maxLen := 2
 	if c.Thorough() {
 		maxLen = 3
